@@ -562,10 +562,26 @@ def _drop_empty_loops(events, assign):
                         empty = True          # D.get(K) falsy: D[K] is missing or empty, the loop body never runs
                 if (not p) and t == seq:
                     empty = True              # the sequence itself is falsy (empty)
+            # `D.get(K) or []`: empty when D.get(K) is falsy or K is not in D
+            core = seq[:-len(" or []")] if seq.endswith(" or []") else (seq[len("[] or "):] if seq.startswith("[] or ") else None)
+            if core is not None and ".get(" in core and core.endswith(")"):
+                d_, k_ = core[: core.index(".get(")], core[core.index(".get(") + 5: -1]
+                if assign.get(core) is False or assign.get(f"{k_} not in {d_}") is True or assign.get(f"{k_} in {d_}") is False \
+                        or assign.get(f"{d_}[{k_}]") is False:
+                    empty = True
             if empty:
                 continue
         out.append(e)
     return tuple(out)
+
+
+def _norm_seq(seq: str) -> str:
+    """`D.get(K) or []` iterates exactly what `D[K]` iterates whenever it iterates anything."""
+    core = seq[:-len(" or []")] if seq.endswith(" or []") else (seq[len("[] or "):] if seq.startswith("[] or ") else None)
+    if core is not None and ".get(" in core and core.endswith(")"):
+        d_, k_ = core[: core.index(".get(")], core[core.index(".get(") + 5: -1]
+        return f"{d_}[{k_}]"
+    return seq
 
 
 def _events_equal(ea, eb, assign=None) -> bool:
@@ -577,6 +593,9 @@ def _events_equal(ea, eb, assign=None) -> bool:
         if x[0] != y[0]:
             return False
         if x[0] in ("for", "while"):
+            if x[0] == "for":
+                x = (x[0], _norm_seq(x[1])) + tuple(x[2:])
+                y = (y[0], _norm_seq(y[1])) + tuple(y[2:])
             if x[1:-1] != y[1:-1]:
                 return False
             eq, _d = compare_tables(x[-1], y[-1])
